@@ -114,11 +114,18 @@ def check_page(ctx, case):
     try:
         page = render_direct(app, path, width, ansi)
         again = render_direct(app, path, width, ansi)
+        # the same application object at another width / the other decoration in between: the page depends on the
+        # configuration, the width and the decoration only, not on what was rendered before
+        render_direct(app, path, 40 + (width + 37) % 160, not ansi)
+        render_direct(app, (), width, ansi)
+        back = render_direct(app, path, width, ansi)
     except Exception as e:
         fail("C13.renders", "the page renders", None, exc=e)
         return
     if page != again:
         fail("C13.idempotent", page, again)
+    if page != back:
+        fail("C13.idempotent", page, back, sig="after-other-renderings")
     text = markup.strip_sgr(page)
     if not ansi and "\x1b" in page:
         fail("C13.renders", "no escape byte on a plain output", page, sig="escape")
